@@ -71,7 +71,7 @@ def decode_status(status):
     return {"exit": None, "signal": None}
 
 
-def fork_call(fn, args=(), timeout=120.0, after_fork=None):
+def fork_call(fn, args=(), timeout=120.0, after_fork=None, before_reap=None):
     """Run fn(*args) in a forked child; return dict(result=..., exit=..., signal=..., timeout=bool).
 
     The child writes json.dumps(result) to a pipe and _exit(0)s.  If the child
@@ -105,8 +105,15 @@ def fork_call(fn, args=(), timeout=120.0, after_fork=None):
             os.kill(pid, signal.SIGKILL)
         except ProcessLookupError:
             pass
+    extra = None
+    if before_reap is not None and not timed_out:
+        # the child has exited (its end of the pipe is closed) but has not been waited for: it is a zombie and its pid
+        # still exists - the moment at which another process may already try again
+        extra = before_reap(pid, bool(data))
     status = _reap(pid)
     out = decode_status(status)
+    if extra is not None:
+        out["before_reap"] = extra
     out["timeout"] = timed_out
     out["result"] = None
     if data:
